@@ -35,7 +35,19 @@ def make_case(prop, seed, i, tier):
         parent["sim"]["absence"] = sorted(rng.sample(range(0, 12), rng.randint(1, 3)))
     parent["sim"]["auto_flag"] = False
     kind = "refusal" if i % 5 == 4 else "duration"
-    return dict(prop=prop, i=i, kind=kind, sub=sub, parent=parent, pos=pos, sub_unit=rng.choice(UNITS), parent_unit=rng.choice(UNITS),
+    sub_unit, parent_unit = rng.choice(UNITS), rng.choice(UNITS)
+    if i % 12 == 5:
+        # a sub-project that runs for hundreds of steps (257 and more)
+        f = rng.choice([30.0, 60.0])
+        for t_ in sub["tasks"]:
+            t_["work"] = t_["work"] * f
+        if sub["sim"]["absence"]:
+            sub["sim"]["absence"] = sorted(set(sub["sim"]["absence"]) | set(rng.sample(range(20, 250), 6)))
+        sub["sim"]["max_time"] = G.feasible_bound(sub)
+        sub_unit = rng.choice([60, 120])
+        parent_unit = rng.choice([x for x in UNITS if x >= sub_unit and x <= 600])
+        parent["sim"]["max_time"] = 3000
+    return dict(prop=prop, i=i, kind=kind, sub=sub, parent=parent, pos=pos, sub_unit=sub_unit, parent_unit=parent_unit,
                 remove_absence=rng.random() < 0.5, refusal=rng.choice(["unsimulated", "failed"]))
 
 
